@@ -96,7 +96,9 @@ CLAIMED["C07"] = (
     "tlc -simulate behaviours, seeded scenarios up to 70 gear) re-executed and judged by TLC (CommJudge)",
     "TLC explores every stream of random draws for 2 (quick) / 3 (thorough) gear over boundary random addresses with "
     "clash rounds, finds the withdrawn-collision counterexample, and every real trace is re-executed frame by frame "
-    "on the unit model before P1..P6 are evaluated; simulated behaviours must reproduce exactly on the real code.",
+    "on the unit model before P1..P6 are evaluated; simulated behaviours must reproduce exactly on the real code. A "
+    "byte-boundary instance (random addresses 0x123456 / 0xFFFEFF / 0xFFFF80) is checked exhaustively, all its terminal "
+    "states are replayed, and a model variant with a seeded slip (skip-unchanged-bytes, C07f) must violate P2.",
     "Trusted: TLC; my reading of IEC 62386-102 11.7 (RANDOMISE / PROGRAM SHORT ADDRESS act on units that are not "
     "DISABLED); bus rule 0/1/>=2 answers -> none/value/framing error. The Python unit simulator is re-executed by TLC.",
     "DESIGN.md §5 C07")
@@ -201,8 +203,9 @@ CLAIMED["C15"] = (
     "free, sequences closed) evaluated by TLC on runs of the real drivers under a deterministic virtual-time event "
     "loop with recording fake gateways; schedules = start points x report release plans (systematic for 2 callers, "
     "seeded random for 2-4); implementation-shaped TLA+ model of the asyncio HID driver (AsyncDriver: lock, two-phase "
-    "cancellation, mailboxes, handshake) model-checked exhaustively for TxnAtomic under every interleaving, and "
-    "event traces of real Tridonic runs validated against it (AsyncTrace)",
+    "cancellation, mailboxes, handshake, power-supply requests) model-checked exhaustively for TxnAtomic under every "
+    "interleaving (variants with a known / seeded defect must violate a named invariant), and event traces of real "
+    "Tridonic runs validated against it (AsyncTrace)",
     "Real CPython asyncio scheduling runs unchanged inside each loop iteration; the harness controls only what a real "
     "loop leaves to the OS: when gateway reports become readable and when callers start. Quick: ~2000 runs over 4 "
     "drivers; thorough: every release plan of length 8 over {0,1,all} x 12 start points x 2 orders + 48000 random runs.",
